@@ -49,7 +49,11 @@ func (o *Obligation) smt(getModel bool) string {
 	if o.IsCover {
 		sb.WriteString(fmt.Sprintf("(assert %s)\n", o.pc))
 	} else {
-		sb.WriteString(fmt.Sprintf("(assert (not (=> %s %s)))\n", o.pc, o.goal))
+		sb.WriteString(fmt.Sprintf("(assert %s)\n", o.pc))
+		for _, l := range negatedGoal(o.goal) {
+			sb.WriteString(l)
+			sb.WriteByte('\n')
+		}
 	}
 	sb.WriteString("(check-sat)\n")
 	if getModel && len(o.Model) > 0 {
